@@ -333,7 +333,13 @@ async fn scenario(a: &ShardArgs, idx: u64) {
     };
     let processing_delay = r.u16();
     sim.mock.script(|s| {
-        s.restart_delay = restart_delay.map(|(secs, v)| if secs { crate::outstation::RestartDelay::Seconds(v) } else { crate::outstation::RestartDelay::Milliseconds(v) });
+        s.restart_delay = restart_delay.map(|(secs, v)| {
+            if secs {
+                crate::outstation::RestartDelay::Seconds(v)
+            } else {
+                crate::outstation::RestartDelay::Milliseconds(v)
+            }
+        });
         s.processing_delay = processing_delay;
     });
     let state: &'static str = match kind {
@@ -454,11 +460,18 @@ async fn scenario(a: &ShardArgs, idx: u64) {
         for u in &unsol {
             cx.check_unsol(u);
         }
-        if req.func == ra::F_CONFIRM && req.bytes.len() == 2 && req.bytes[0] & ra::UNS == 0 && pending == Some(req.bytes[0] & 0x0F) {
+        if req.func == ra::F_CONFIRM
+            && req.bytes.len() == 2
+            && req.bytes[0] & ra::UNS == 0
+            && pending == Some(req.bytes[0] & 0x0F)
+        {
             // the generated CONFIRM happens to be the one the outstation is waiting for: what follows is the
             // continuation of the earlier series, not an answer to a CONFIRM
             out::count("generated_confirm_continued_a_series", 1);
-            pending = sol.last().filter(|f| f.len() >= 2 && f[0] & ra::CON != 0).map(|f| f[0] & 0x0F);
+            pending = sol
+                .last()
+                .filter(|f| f.len() >= 2 && f[0] & ra::CON != 0)
+                .map(|f| f[0] & 0x0F);
             continue;
         }
         for o in &other {
@@ -553,10 +566,24 @@ async fn scenario(a: &ShardArgs, idx: u64) {
                     out::count("responses_to_good_requests", 1);
                     // content of the replies whose objects come from the application
                     let f = &sol[0];
-                    if req.bytes.len() == 2 && f.len() >= 4 && matches!(req.func, ra::F_COLD_RESTART | ra::F_WARM_RESTART | ra::F_DELAY_MEASURE) {
+                    if req.bytes.len() == 2
+                        && f.len() >= 4
+                        && matches!(
+                            req.func,
+                            ra::F_COLD_RESTART | ra::F_WARM_RESTART | ra::F_DELAY_MEASURE
+                        )
+                    {
                         let want: Option<Vec<u8>> = match req.func {
-                            ra::F_DELAY_MEASURE => Some(ra::B { bytes: vec![] }.count8(52, 2, 1, &processing_delay.to_le_bytes()).bytes),
-                            _ => restart_delay.map(|(secs, v)| ra::B { bytes: vec![] }.count8(52, if secs { 1 } else { 2 }, 1, &v.to_le_bytes()).bytes),
+                            ra::F_DELAY_MEASURE => Some(
+                                ra::B { bytes: vec![] }
+                                    .count8(52, 2, 1, &processing_delay.to_le_bytes())
+                                    .bytes,
+                            ),
+                            _ => restart_delay.map(|(secs, v)| {
+                                ra::B { bytes: vec![] }
+                                    .count8(52, if secs { 1 } else { 2 }, 1, &v.to_le_bytes())
+                                    .bytes
+                            }),
                         };
                         match want {
                             Some(w) => {
@@ -610,7 +637,10 @@ async fn scenario(a: &ShardArgs, idx: u64) {
             k += s.len();
             last = s.last().cloned();
         }
-        pending = last.as_ref().filter(|f| f.len() >= 2 && f[0] & ra::CON != 0 && f[0] & ra::FIN == 0).map(|f| f[0] & 0x0F);
+        pending = last
+            .as_ref()
+            .filter(|f| f.len() >= 2 && f[0] & ra::CON != 0 && f[0] & ra::FIN == 0)
+            .map(|f| f[0] & 0x0F);
         if out::sample_count() < 3 && !sol.is_empty() {
             out::sample(J::obj(vec![
                 ("state", J::s(state)),
